@@ -254,8 +254,11 @@ Proof.
   intros fx s sp (Hsc & _). unfold iteration, spec_all. rewrite Hsc. apply sv_elements_conc.
 Qed.
 
+Section WithGuard.
+Variable fs : bool.
+
 Lemma R_step : forall fx s sp o, R fx s sp ->
-  match step fx s o, spec_step sp o with
+  match step fx fs s o, spec_step fs sp o with
   | Some s', Some sp' => R fx s' sp'
   | None, None => True
   | _, _ => False
@@ -279,9 +282,15 @@ Proof.
     + exact Hok.
   - (* PopScope *)
     unfold pop_scope. destruct (sp_global sp) eqn:G; [exact HR|].
-    rewrite Hsc. destruct (sp_rest sp) as [|sc r] eqn:Er.
-    + rewrite pop_scope_base. exact I.
-    + rewrite pop_scope_conc.
+    destruct (sp_rest sp) as [|sc r] eqn:Er.
+    + assert (El : sv_limits (tn_scoped x) = []).
+      { rewrite Hsc. reflexivity. }
+      rewrite El. destruct fs; [|exact I].
+      split; [|split]; cbn [fst snd]; [rewrite Er; exact Hsc|symmetry; exact G|exact Hok].
+    + assert (El : exists l ls, sv_limits (tn_scoped x) = l :: ls).
+      { rewrite Hsc. unfold conc. cbn [sv_limits conc_limits]. eexists; eexists; reflexivity. }
+      destruct El as (l & ls & El). rewrite El.
+      rewrite Hsc. rewrite pop_scope_conc.
       rewrite Hsc in Hok. unfold conc in Hok. cbn [sv_rev] in Hok.
       change (conc_rev (sp_top sp :: sc :: r)) with (rev (sp_top sp) ++ conc_rev (sc :: r)) in Hok.
       destruct (ok_erase_all _ _ _ _ Hok) as (m' & E & Hok').
@@ -293,7 +302,7 @@ Proof.
 Qed.
 
 Lemma R_run_from : forall fx ops s sp, R fx s sp ->
-  match run_from fx s ops, spec_run_from sp ops with
+  match run_from fx fs s ops, spec_run_from fs sp ops with
   | Some s', Some sp' => R fx s' sp'
   | None, None => True
   | _, _ => False
@@ -302,30 +311,30 @@ Proof.
   intros fx ops; induction ops as [|o r IH]; intros s sp HR; cbn [run_from spec_run_from].
   - exact HR.
   - pose proof (R_step fx s sp o HR) as H.
-    destruct (step fx s o) as [s'|], (spec_step sp o) as [sp'|]; try contradiction.
+    destruct (step fx fs s o) as [s'|], (spec_step fs sp o) as [sp'|]; try contradiction.
     + apply IH; exact H.
     + exact I.
 Qed.
 
 (* Refinement: the class, driven by any sequence of client operations, IS the stack of scopes. *)
-Lemma names_refine_lemma : forall fx ops, option_map abs (run fx ops) = spec_run ops.
+Lemma names_refine_lemma : forall fx ops, option_map abs (run fx fs ops) = spec_run fs ops.
 Proof.
   intros fx ops. unfold run, spec_run.
   pose proof (R_run_from fx ops _ _ (R_init fx)) as H.
-  destruct (run_from fx st_init ops) as [s|], (spec_run_from spec_init ops) as [sp|]; try contradiction.
+  destruct (run_from fx fs st_init ops) as [s|], (spec_run_from fs spec_init ops) as [sp|]; try contradiction.
   - simpl. f_equal. apply (R_abs fx); exact H.
   - reflexivity.
 Qed.
 
-Lemma run_R : forall fx ops s, run fx ops = Some s -> exists sp, spec_run ops = Some sp /\ R fx s sp.
+Lemma run_R : forall fx ops s, run fx fs ops = Some s -> exists sp, spec_run fs ops = Some sp /\ R fx s sp.
 Proof.
   intros fx ops s E. unfold run in E.
   pose proof (R_run_from fx ops _ _ (R_init fx)) as H. rewrite E in H. unfold spec_run.
-  destruct (spec_run_from spec_init ops) as [sp|]; [|contradiction].
+  destruct (spec_run_from fs spec_init ops) as [sp|]; [|contradiction].
   exists sp; split; [reflexivity|exact H].
 Qed.
 
-Lemma names_obs_lemma : forall fx ops s, run fx ops = Some s ->
+Lemma names_obs_lemma : forall fx ops s, run fx fs ops = Some s ->
   (forall n, term_by_name (fst s) n = spec_lookup (abs s) n) /\
   (forall n, contains_name (fst s) n = spec_has (abs s) n) /\
   iteration (fst s) = spec_all (abs s).
@@ -338,9 +347,9 @@ Proof.
 Qed.
 
 (* The only way a run can be undefined is popScope without an open scope. *)
-Lemma run_defined_iff_spec : forall fx ops, run fx ops = None <-> spec_run ops = None.
+Lemma run_defined_iff_spec : forall fx ops, run fx fs ops = None <-> spec_run fs ops = None.
 Proof.
-  intros fx ops. rewrite <- (names_refine_lemma fx). destruct (run fx ops); simpl; split; congruence.
+  intros fx ops. rewrite <- (names_refine_lemma fx). destruct (run fx fs ops); simpl; split; congruence.
 Qed.
 
 (* ---- contains(term): the defect and the repair --------------------------------------------------- *)
@@ -353,7 +362,7 @@ Proof.
   destruct HR as (_ & _ & _ & Hn2t & _). apply Hn2t.
 Qed.
 
-Lemma contains_term_complete : forall fx ops s t, run fx ops = Some s ->
+Lemma contains_term_complete : forall fx ops s t, run fx fs ops = Some s ->
   named_by (abs s) t -> contains_term (fst s) t = true.
 Proof.
   intros fx ops s t E (n & Hn). destruct (run_R _ _ _ E) as (sp & _ & HR).
@@ -362,7 +371,7 @@ Proof.
   unfold contains_term, al_has. rewrite El. reflexivity.
 Qed.
 
-Lemma contains_term_repaired_lemma : forall ops s t, run true ops = Some s ->
+Lemma contains_term_repaired_lemma : forall ops s t, run true fs ops = Some s ->
   (contains_term (fst s) t = true <-> named_by (abs s) t) /\
   name_for_term (fst s) t <> PickUB /\
   (forall n, name_for_term (fst s) t = PickName n -> spec_lookup (abs s) n = Some t).
@@ -386,7 +395,7 @@ Proof.
 Qed.
 
 (* also on the code as it is, a name that IS picked is a live name of that term *)
-Lemma picked_name_live : forall fx ops s t n, run fx ops = Some s ->
+Lemma picked_name_live : forall fx ops s t n, run fx fs ops = Some s ->
   name_for_term (fst s) t = PickName n -> spec_lookup (abs s) n = Some t.
 Proof.
   intros fx ops s t n E. destruct (run_R _ _ _ E) as (sp & _ & HR).
@@ -405,23 +414,23 @@ Inductive balanced : list op -> Prop :=
 | bal_scope : forall a b, balanced a -> balanced b -> balanced (PushScope :: a ++ PopScope :: b).
 
 Lemma spec_run_from_app : forall a b sp,
-  spec_run_from sp (a ++ b) =
-  match spec_run_from sp a with Some sp' => spec_run_from sp' b | None => None end.
+  spec_run_from fs sp (a ++ b) =
+  match spec_run_from fs sp a with Some sp' => spec_run_from fs sp' b | None => None end.
 Proof.
   induction a as [|o a IH]; intros b sp; cbn [app spec_run_from]; [reflexivity|].
-  destruct (spec_step sp o); [apply IH|reflexivity].
+  destruct (spec_step fs sp o); [apply IH|reflexivity].
 Qed.
 
 Lemma run_from_app : forall fx a b s,
-  run_from fx s (a ++ b) = match run_from fx s a with Some s' => run_from fx s' b | None => None end.
+  run_from fx fs s (a ++ b) = match run_from fx fs s a with Some s' => run_from fx fs s' b | None => None end.
 Proof.
   induction a as [|o a IH]; intros b s; cbn [app run_from]; [reflexivity|].
-  destruct (step fx s o); [apply IH|reflexivity].
+  destruct (step fx fs s o); [apply IH|reflexivity].
 Qed.
 
 (* a balanced history only extends the scope it starts in *)
 Lemma balanced_extends : forall l, balanced l -> forall top rest,
-  exists ext, spec_run_from (mk_spec top rest false) l = Some (mk_spec (top ++ ext) rest false).
+  exists ext, spec_run_from fs (mk_spec top rest false) l = Some (mk_spec (top ++ ext) rest false).
 Proof.
   intros l Hb; induction Hb as [|n t l Hb IH|a b Ha IHa Hb IHb]; intros top rest.
   - exists []. rewrite app_nil_r. reflexivity.
@@ -437,8 +446,8 @@ Qed.
 (* Names introduced inside a level disappear with it: after (push) .. (pop) the specification is
    exactly what it was before the push -- lookups, membership and iteration included. *)
 Lemma pop_restores_spec : forall pre mid sp,
-  spec_run pre = Some sp -> sp_global sp = false -> balanced mid ->
-  spec_run (pre ++ PushScope :: mid ++ [PopScope]) = Some sp.
+  spec_run fs pre = Some sp -> sp_global sp = false -> balanced mid ->
+  spec_run fs (pre ++ PushScope :: mid ++ [PopScope]) = Some sp.
 Proof.
   intros pre mid [top rest g] Epre Hg Hb. cbn [sp_global] in Hg. subst g.
   unfold spec_run in *. rewrite spec_run_from_app, Epre.
@@ -448,8 +457,8 @@ Proof.
 Qed.
 
 Lemma pop_restores_names_lemma : forall fx pre mid s0,
-  run fx pre = Some s0 -> snd s0 = false -> balanced mid ->
-  exists s, run fx (pre ++ PushScope :: mid ++ [PopScope]) = Some s /\ abs s = abs s0 /\
+  run fx fs pre = Some s0 -> snd s0 = false -> balanced mid ->
+  exists s, run fx fs (pre ++ PushScope :: mid ++ [PopScope]) = Some s /\ abs s = abs s0 /\
     (forall n, term_by_name (fst s) n = term_by_name (fst s0) n) /\
     (forall n, contains_name (fst s) n = contains_name (fst s0) n) /\
     iteration (fst s) = iteration (fst s0).
@@ -458,7 +467,7 @@ Proof.
   destruct (run_R _ _ _ E0) as (sp0 & Esp0 & HR0).
   assert (Hg0 : sp_global sp0 = false) by (destruct HR0 as (_ & <- & _); exact Hg).
   pose proof (pop_restores_spec pre mid sp0 Esp0 Hg0 Hb) as Esp.
-  destruct (run fx (pre ++ PushScope :: mid ++ [PopScope])) as [s|] eqn:E.
+  destruct (run fx fs (pre ++ PushScope :: mid ++ [PopScope])) as [s|] eqn:E.
   - exists s. split; [reflexivity|].
     destruct (run_R _ _ _ E) as (sp & Esp' & HR). rewrite Esp in Esp'. inversion Esp'; subst sp.
     split; [rewrite (R_abs _ _ _ HR), (R_abs _ _ _ HR0); reflexivity|].
@@ -471,7 +480,7 @@ Qed.
 
 (* A name is accepted by tryInsert exactly when no live scope holds it; in particular a name whose
    level was popped can be introduced again (with any term). *)
-Lemma insert_iff_not_live : forall fx ops s n t, run fx ops = Some s ->
+Lemma insert_iff_not_live : forall fx ops s n t, run fx fs ops = Some s ->
   snd (try_insert n t (fst s)) = negb (spec_has (abs s) n).
 Proof.
   intros fx ops s n t E. destruct (run_R _ _ _ E) as (sp & _ & HR).
@@ -481,9 +490,9 @@ Proof.
 Qed.
 
 Lemma popped_name_reusable_lemma : forall fx pre mid s0 n t',
-  run fx pre = Some s0 -> snd s0 = false -> balanced mid ->
+  run fx fs pre = Some s0 -> snd s0 = false -> balanced mid ->
   contains_name (fst s0) n = false ->
-  exists s, run fx (pre ++ PushScope :: mid ++ [PopScope]) = Some s /\
+  exists s, run fx fs (pre ++ PushScope :: mid ++ [PopScope]) = Some s /\
             term_by_name (fst s) n = None /\
             snd (try_insert n t' (fst s)) = true /\
             term_by_name (fst (try_insert n t' (fst s))) n = Some t'.
@@ -520,7 +529,7 @@ Qed.
    and no name ever disappears or changes its term. *)
 Lemma global_persists_lemma : forall fx ops x,
   no_set_global ops = true ->
-  exists x', run_from fx (x, true) ops = Some (x', true) /\
+  exists x', run_from fx fs (x, true) ops = Some (x', true) /\
     forall n t, term_by_name x n = Some t -> term_by_name x' n = Some t.
 Proof.
   intros fx ops; induction ops as [|o r IH]; intros x Hns.
@@ -534,7 +543,7 @@ Qed.
 
 Lemma global_insert_persists_lemma : forall fx ops x n t,
   no_set_global ops = true -> term_by_name x n = None ->
-  exists x', run_from fx (x, true) (Insert n t :: ops) = Some (x', true) /\ term_by_name x' n = Some t.
+  exists x', run_from fx fs (x, true) (Insert n t :: ops) = Some (x', true) /\ term_by_name x' n = Some t.
 Proof.
   intros fx ops x n t Hns Hnone. cbn [run_from step].
   destruct (global_persists_lemma fx ops (fst (try_insert n t x)) Hns) as (x' & E & Hk).
@@ -556,7 +565,7 @@ Fixpoint pops_matched_from (d : nat) (ops : list op) : bool :=
 
 Lemma matched_defined_from : forall ops sp,
   no_set_global ops = true -> sp_global sp = false ->
-  pops_matched_from (length (sp_rest sp)) ops = true -> spec_run_from sp ops <> None.
+  pops_matched_from (length (sp_rest sp)) ops = true -> spec_run_from fs sp ops <> None.
 Proof.
   induction ops as [|o r IH]; intros sp Hns Hg Hm; cbn [spec_run_from]; [discriminate|].
   destruct o as [n t| | |b]; cbn [no_set_global pops_matched_from spec_step] in *; try discriminate.
@@ -567,8 +576,26 @@ Proof.
 Qed.
 
 Lemma matched_defined_lemma : forall fx ops,
-  no_set_global ops = true -> pops_matched_from 0 ops = true -> run fx ops <> None.
+  no_set_global ops = true -> pops_matched_from 0 ops = true -> run fx fs ops <> None.
 Proof.
   intros fx ops Hns Hm E. apply run_defined_iff_spec in E. revert E.
   apply matched_defined_from; auto.
+Qed.
+
+End WithGuard.
+
+(* with the guarded popScope no operation sequence at all is undefined *)
+Lemma spec_run_from_guarded_total : forall ops sp, spec_run_from true sp ops <> None.
+Proof.
+  induction ops as [|o r IH]; intros sp; cbn [spec_run_from]; [discriminate|].
+  destruct o as [n t| | |b]; cbn [spec_step].
+  - destruct (spec_has sp n); apply IH.
+  - destruct (sp_global sp); apply IH.
+  - destruct (sp_global sp); [apply IH|]. destruct (sp_rest sp); apply IH.
+  - apply IH.
+Qed.
+
+Lemma run_guarded_total : forall fx ops, run fx true ops <> None.
+Proof.
+  intros fx ops E. apply run_defined_iff_spec in E. revert E. apply spec_run_from_guarded_total.
 Qed.
